@@ -14,17 +14,17 @@ CLAIMED = {
     "C02": ("FindIndex/Find/FindString(Index) vs stdlib leftmost-first span, same bounds as C01", "§5 C02"),
     "C03": ("FindSubmatchIndex family vs stdlib capture positions on the capture corpus", "§5 C03"),
     "C04": ("FindAll family, Count, iterators, AppendAllIndex vs stdlib FindAll sequence; limit n symbolic in [-1,3]", "§5 C04"),
-    "C05": ("exact worst-case work (executed basic blocks of library code, maximised by exhaustive symbolic exploration over ALL haystacks of length L over a 3-symbol class alphabet) at L, 2L; asserted: growth at most 2.5x plus a constant, and at most 32x the reference PikeVM per byte", "§5 C05"),
+    "C05": ("exact worst-case work (executed basic blocks of library code, maximised by exhaustive symbolic exploration over ALL haystacks of length L over a 3-symbol class alphabet) at 0, L, 2L, plus one-symbol runs of 16/32 (32/64) bytes and long runs (128..512, thorough ..1024, copies of one symbol followed by one symbolic byte); asserted: the slope of the work does not grow by more than 1.5x (1.25x on long runs) from one length interval to the next, and work stays within 32x the reference PikeVM per byte", "§5 C05"),
     "C06": ("two concurrent calls (API pairs) on one shared Regex: every interleaving at synchronisation operations with a bounded number of preemptions is explored by the executor, with a vector-clock happens-before monitor on all plain memory accesses and per-call result equality with the sequential result; haystacks symbolic; races are confirmed under the native Go race detector before being reported", "§5 C06"),
     "C07": ("every search API on every byte string within the bound: no panic, no exceeded step budget, result well-formedness predicates, haystack cells unchanged, Find aliases the input; Compile of patterns with a symbolic byte returns normally and later searches are well-formed", "§5 C07"),
     "C09": ("QuoteMeta for every byte string of length <= 3/4; Compile(QuoteMeta(s)) matches exactly s; Compile/CompilePOSIX acceptance, error text and all metadata accessors vs regexp on the Hamming-1 neighbourhood (one symbolic byte per position over a metacharacter alphabet) of a pattern list", "§5 C09"),
     "C08": ("Expand/ExpandString with a symbolic template (<= 3/4 bytes over the template alphabet), ReplaceAll* with symbolic source text and partly symbolic template, Split with symbolic text and symbolic limit n, all vs stdlib", "§5 C08"),
     "C10": ("Longest()/CompilePOSIX results vs stdlib in the same mode; Copy isolation", "§5 C10"),
     "C11": ("internal consistency of all views of one Regex on every byte string within the bound (no oracle)", "§5 C11"),
-    "C15": ("anchored byte automaton (NFA compiler in default / sparse-dot / ASCII-only mode, simulated by the PikeVM) and the end-to-end Match vs regexp on ^(?:c)$ for EVERY byte string of length 1..3 (4 thorough): covers the UTF-8 of all runes of those lengths and all ill-formed inputs", "§5 C15"),
-    "C16": ("prefilter.Find vs the naive least-literal-position definition for every haystack within the bound and start offset 0..2; complete prefilters: FindMatch / LiteralLen span vs leftmost-first match of the source alternation", "§5 C16"),
+    "C15": ("anchored byte automaton (NFA compiler in default / sparse-dot / ASCII-only mode, simulated by the PikeVM) and the end-to-end Match vs regexp on ^(?:c)$ for EVERY byte string of length 1..3 (4 thorough): covers the UTF-8 of all runes of those lengths and all ill-formed inputs; large 3- and 4-byte ranges (lead bytes E0/ED/F0..) over the boundary bytes of their encodings at L = 3 / 4", "§5 C15"),
+    "C16": ("prefilter.Find vs the naive least-literal-position definition for every haystack within the bound and start offset 0..2; complete prefilters: FindMatch / LiteralLen span vs leftmost-first match of the source alternation; assembly part (asmsym): the SSSE3/AVX2 Teddy kernels parsed from prefilter/*.s for every length 0..Lmax with symbolic contents and masks, every load inside its slice, result equal to (slim) or sound for (fat) the scalar candidate definition", "§5 C16"),
     "C17": ("for every member m of L(p) up to length 3 (4): some extracted prefix/suffix/inner literal occurs in m unless the sequence is empty or flagged partial; also under small extractor limits", "§5 C17"),
-    "C18": ("Go level only: exported simd primitives (pure-Go SWAR/generic implementations, CPU flags false) vs their one-line scalar definitions with symbolic contents, needles and table bits at lengths straddling the 8- and 16-byte chunk boundaries; the assembly kernels are not covered", "§5 C18"),
+    "C18": ("Go level: exported simd primitives (pure-Go SWAR/generic implementations, CPU flags false) vs their one-line scalar definitions with symbolic contents, needles and table bits at lengths straddling the 8- and 16-byte chunk boundaries; assembly level (asmsym, a symbolic executor for the Plan 9 amd64 subset used): the 8 AVX2 kernels of simd/*.s for EVERY length 0..72 (136 thorough, also at base offsets 1 and 31) with symbolic contents and needles, every load proved inside [base, base+len), result equal to the scalar definition on every path, path conditions closed", "§5 C18"),
     "C19": ("each specialised searcher constructed through its own applicability predicate (CharClassSearcher, CompositeSearcher, CompositeSequenceDFA, BranchDispatcher, anchored-literal matcher) and each strategy end-to-end through meta.Engine.FindIndicesAt/IsMatch on the whitelist-boundary corpus P19, vs the reference", "§5 C19"),
     "C12": ("results under a grid of boundary configurations (each Validate() range end, each boolean) vs the default configuration and vs the plain NFA simulation, on every byte string within the bound", "§5 C12"),
     "C13": ("bounded call histories on one value (nondeterministic earlier API, symbolic earlier and final haystacks) vs a fresh value; inductive step over an arbitrary recycled BoundedBacktracker state (invariant + result equality, including generation wrap); lazy-DFA cache reuse under tiny capacities", "§5 C13"),
